@@ -7,6 +7,7 @@ package turn
 import (
 	"fmt"
 	"net"
+	"time"
 
 	"github.com/pion/stun/v3"
 	"github.com/pion/turn/v5/internal/proto"
@@ -123,6 +124,49 @@ func (h *h2Hist) opConnBind() {
 	h.tid++
 	raw := h.build(stun.NewType(stun.MethodConnectionBind, stun.ClassRequest), h.tid, &cr, attrs...)
 	h.do(fmt.Sprintf("m %s %d cbind %d %s cid=%s", k, len(raw), h.tid, cr, cidS), func() { c.sendRaw(raw) })
+}
+
+// opForeignBind (C16, C03): another user, with his own valid credentials, names a still-unbound connection of
+// somebody else's allocation; then the 30 s bind deadline passes.  The refused request must change nothing:
+// the connection is still closed at its deadline (and until then the owner can still bind it).
+func (h *h2Hist) opForeignBind() {
+	idx := -1
+	for i := h.w.nextCid - 1; i >= 0 && i >= h.w.nextCid-4; i-- {
+		if !h.boundCid[i] && h.cidUser[i] != "" {
+			idx = i
+			break
+		}
+	}
+	if idx < 0 {
+		return
+	}
+	lid, ok := h.cidLid[idx]
+	if !ok || !h.w.lis[lid].stream {
+		return
+	}
+	other := "alice"
+	if h.cidUser[idx] == "alice" {
+		other = "bob"
+	}
+	a := h.cpool[h.rng.Intn(3)]
+	h.dataPort++
+	c := h.w.client(lid, a.IP, h.dataPort)
+	if c == nil {
+		return
+	}
+	c.isData = true
+	h.addKey(lid, c.srcAddr())
+	real, _ := h.w.realCid(idx)
+	cr := h.goodCred(other)
+	h.tid++
+	raw := h.build(stun.NewType(stun.MethodConnectionBind, stun.ClassRequest), h.tid, &cr, proto.ConnectionID(real))
+	h.do(fmt.Sprintf("m %s %d cbind %d %s cid=%d", c.key(), len(raw), h.tid, cr, idx), func() { c.sendRaw(raw) })
+	h.vt.Stat("op.foreign-bind")
+	if h.rng.Intn(2) == 0 {
+		h.sleepOp(31 * time.Second)
+	} else {
+		h.sleepOp(time.Duration(1+h.rng.Intn(20)) * time.Second)
+	}
 }
 
 func (h *h2Hist) tcpRelays() []string {
